@@ -67,6 +67,13 @@ class CallMixin:
             return PyTuple(list(base.args[1]))
         if isinstance(base, (Const, Str, PyList, PyTuple, PyDict, AbsList, ListV, MapV)) or \
                 (isinstance(base, Sym) and (base.hint == "str" or base.op == "set")):
+            # a value of a builtin type has the attributes of that type and no others
+            pts = {Str: (str,), PyList: (list,), PyTuple: (tuple,), PyDict: (dict,), AbsList: (list, tuple), ListV: (list, tuple)}.get(type(base))
+            if isinstance(base, Const) and type(base.v) in (str, int, float, bool, tuple, bytes, type(None), frozenset):
+                pts = (type(base.v),)
+            if pts and not any(hasattr(t, attr) for t in pts):
+                self.may_raise("builtins.AttributeError", f"{_describe(base)}.{attr}", definite=True)
+                raise _Raise(self.make_exc("builtins.AttributeError"), self.cur_where)
             return Sym("bm", base, attr)
         if isinstance(base, (FuncV, BoundV)):
             if attr == "__name__":
